@@ -38,9 +38,23 @@ def analyse_handle(cx):
         if base_local(du, t.args[0]) != h.inner:
             raise AnchorMissing("handle: read_until does not read the inner BufReader")
         h.buf_locals.add(base_local(du, t.args[2]))
-    h.from_slice = [t for t in body.calls() if not t.callee.indirect and "serde_json" in t.callee.path and t.callee.name in ("from_slice", "from_str", "from_reader")]
+    # the parser: the call that yields the Request — serde_json::from_slice/from_str, or `Request::deserialize(&mut de)` on a
+    # serde_json::Deserializer built over the message (then `h.deser_ctor` is that constructor)
+    h.deser_ctor = None
+    cands = [t for t in body.calls() if not t.callee.indirect and "serde_json" in t.callee.path and t.callee.name in ("from_slice", "from_str", "from_reader") and "Deserializer" not in t.callee.path]
+    if not cands:
+        ctors = [t for t in body.calls() if not t.callee.indirect and "serde_json" in t.callee.path and "Deserializer" in t.callee.path and t.callee.name in ("from_slice", "from_str", "from_reader", "new")]
+        des = [t for t in body.calls("=deserialize") if t.dest is not None and "Request" in body.ty(t.dest.l)]
+        if len(ctors) == 1 and len(des) == 1:
+            cands = des; h.deser_ctor = ctors[0]
+    h.parse_done = None
+    if h.deser_ctor is not None:
+        ends = [t for t in body.calls("=end") if "Deserializer" in (t.callee.path + t.callee.resolved + str(t.callee.impl_self or ""))]
+        if len(ends) == 1: h.parse_done = ends[0]        # with the streaming form a message counts as parsed once end() has agreed
+    h.from_slice = cands
     if len(h.from_slice) != 1: raise AnchorMissing("handle: expected one serde_json parser call (from_slice/from_str), found %d" % len(h.from_slice))
     h.from_slice = h.from_slice[0]
+    if h.parse_done is None: h.parse_done = h.from_slice
     h.dispatch = [t for t in body.calls("VarlinkService::call", "reply_interface_not_found")
                   if t.callee.resolved.endswith("VarlinkService::call") or t.callee.name == "reply_interface_not_found"]
     h.call_news = body.calls("Call::<'a>::new")
